@@ -173,12 +173,19 @@ Definition check_call (pool : list nindex) (earlier : list hcall) (cache : dq_ca
   let self_keys := List.map fst (List.filter (fun e => nat_list_eqb (snd e) (hc_own h)) (hc_groups h)) in
   let others := List.map (fun e => flatten (snd e)) (List.filter (fun e => negb (mem_str (fst e) self_keys)) aa) in
   (cache',
-   tag_if (negb (names_distinct pool (hc_groups h))) "mismatch:harness-equal-index-names" ++
    tag_if (negb (set_eqb obj_eqb (List.map fst (hc_fresh h)) (dq_objs aa))) "mismatch:dq-difference" ++
    tag_if (negb (forallb (fun om =>
              existsb (fun k => mem_str (snd om) (dq_reasons aa k (obj_pkg pool (fst om)))) (obj_keys (hc_groups h) (fst om)))
              (hc_fresh h))) "mismatch:dq-message" ++
-   tag_if (negb (match hc_entry h with Some e => set_eqb obj_eqb e d | None => false end)) "mismatch:dq-cache-entry" ++
+   (* the entry the hook finds under the call's key right after the call.  Indexes with pairwise different names: the
+      key is determined, the entry must be there and be what the model handed out.  Equal names (unpinned
+      repositories): the hook's own lookup lists the map in its own order and may walk another path than the call
+      did, so it may find nothing; what it finds was stored for this very grouping and must be its difference
+      (c14_cache_listing_order_irrelevant) *)
+   (if names_distinct pool (hc_groups h)
+    then tag_if (negb (match hc_entry h with Some e => set_eqb obj_eqb e d | None => false end)) "mismatch:dq-cache-entry"
+    else tag_if (negb (match hc_entry h with Some e => set_eqb obj_eqb e (dq_objs aa) | None => true end))
+                "mismatch:dq-cache-entry/equal-names") ++
    compare_lists (observe_world own model) (hc_obs h) (has_iif_pkgs U) ++
    match hc_obs h with
    | None => []
